@@ -182,7 +182,7 @@ def conds_c20(tier):
         counts("html_n2_max3", XH_N=2, XH_MAXT=3, XH_NEXC=0, XH_OBS="h")
         counts("html_n1_max9_exc2", XH_N=1, XH_MAXT=9, XH_NEXC=2, XH_OBS="h")
         counts("html_n3_sym1_max5", XH_N=3, XH_NSYM=1, XH_MAXT=5, XH_NEXC=0, XH_OBS="h", XH_PAT=1)
-        counts("untraced_n1_max6_exc2", XH_N=1, XH_MAXT=6, XH_NEXC=2, XH_OBS="u")
+        counts("untraced_n1_max4_exc2", XH_N=1, XH_MAXT=4, XH_NEXC=2, XH_OBS="u")
         counts("untraced_n3_max1", XH_N=3, XH_MAXT=1, XH_NEXC=0, XH_OBS="u")
     # -- elapsed string digits, and the validation conditions of the two CrossHair-side models
     cs.append(xhrun.Cond(H, "c20_elapsed", {"XH_MAXE": 35999999 if quick else 3599999999}, timeout=600, label="c20_elapsed"))
